@@ -163,3 +163,41 @@ pub proof fn thm_pivots_nonzero(x: Seq<T>, bl: SingleBoundary<T>, br: SingleBoun
         }
     }
 }
+
+// ---- C08 for the construction: the slopes of lane j are a function of the axis, the end conditions and lane j of the data ONLY
+pub proof fn lemma_fwd_lane(up: Seq<real>, mid: Seq<real>, low: Seq<real>, r1: Seq<Seq<real>>, r2: Seq<Seq<real>>, j: int, i: int)
+    requires 0 <= i, forall|t: int| 0 <= t <= i ==> (#[trigger] r1[t])[j] == r2[t][j]
+    ensures fwd(up, mid, low, r1, j, i) == fwd(up, mid, low, r2, j, i)
+    decreases i
+{
+    assert(r1[i][j] == r2[i][j]);
+    assert(r1[0][j] == r2[0][j]);
+    if i > 0 { lemma_fwd_lane(up, mid, low, r1, r2, j, i - 1); }
+}
+pub proof fn lemma_ksol_lane(up: Seq<real>, mid: Seq<real>, low: Seq<real>, r1: Seq<Seq<real>>, r2: Seq<Seq<real>>, j: int, n: int, i: int)
+    requires 0 <= i < n, forall|t: int| 0 <= t < n ==> (#[trigger] r1[t])[j] == r2[t][j]
+    ensures ksol(up, mid, low, r1, j, n, i) == ksol(up, mid, low, r2, j, n, i)
+    decreases n - i
+{
+    lemma_fwd_lane(up, mid, low, r1, r2, j, i);
+    lemma_fwd_lane(up, mid, low, r1, r2, j, n - 1);
+    if i < n - 1 { lemma_ksol_lane(up, mid, low, r1, r2, j, n, i + 1); }
+}
+/// two data arrays that agree on lane j (other lanes arbitrary) give the same slopes for lane j
+pub proof fn thm_C08_slopes_use_own_lane_only(x: Seq<T>, y1: Seq<Seq<T>>, y2: Seq<Seq<T>>, bl: SingleBoundary<T>, br: SingleBoundary<T>, n: int, nl: int, j: int, i: int)
+    requires n >= 3, 0 <= i < n, 0 <= j < nl, y1.len() == n, y2.len() == n,
+             forall|t: int| 0 <= t < n ==> (#[trigger] y1[t])[j]@ == y2[t][j]@
+    ensures ksys(x, y1, bl, br, n, nl, j, i) == ksys(x, y2, bl, br, n, nl, j, i)
+{
+    let r1 = sys_rhs(x, y1, bl, br, n, nl); let r2 = sys_rhs(x, y2, bl, br, n, nl);
+    assert forall|t: int| 0 <= t < n implies (#[trigger] r1[t])[j] == r2[t][j] by {
+        assert(y1[0][j]@ == y2[0][j]@ && y1[1][j]@ == y2[1][j]@ && y1[2][j]@ == y2[2][j]@);
+        assert(y1[n - 1][j]@ == y2[n - 1][j]@ && y1[n - 2][j]@ == y2[n - 2][j]@ && y1[n - 3][j]@ == y2[n - 3][j]@);
+        assert(y1[t][j]@ == y2[t][j]@);
+        if 0 < t { assert(y1[t - 1][j]@ == y2[t - 1][j]@); }
+        if t < n - 1 { assert(y1[t + 1][j]@ == y2[t + 1][j]@); }
+        assert(r1[t][j] == rhs_entry(x, y1, bl, br, n, t, j));
+        assert(r2[t][j] == rhs_entry(x, y2, bl, br, n, t, j));
+    }
+    lemma_ksol_lane(sys_up(x, bl, n), sys_mid(x, bl, br, n), sys_low(x, br, n), r1, r2, j, n, i);
+}
